@@ -6,12 +6,15 @@
 
 bool g_canary_failed = false;
 bool g_exact = false;
+unsigned g_misalign = 0;
 static std::map<std::string, Handler> &handlers() { static std::map<std::string, Handler> m; return m; }
 void register_handler(const char *name, Handler h) { handlers()[name] = h; }
 
 int main() {
     const char *e = getenv("VERIF_EXACT");
     g_exact = e && *e == '1';
+    const char *ma = getenv("VERIF_MISALIGN");
+    g_misalign = ma ? (unsigned)atoi(ma) & 15u : 0;
     std::string line;
     while (std::getline(std::cin, line)) {
         if (line.empty() || line[0] == '#') continue;
